@@ -929,12 +929,18 @@ where
             where
                 D: serde::de::Deserializer<'de>,
             {
-                // Anchor context is established by de.rs when the special name is used.
-                let id = anchor_store::current_rc_anchor().ok_or_else(|| {
-                    D::Error::custom(
-                        "weak Rc anchor must refer to an existing strong anchor via alias",
-                    )
-                })?;
+                let Some(id) = anchor_store::current_rc_anchor() else {
+                    // Not an alias: the only thing a weak reference is written as, besides an
+                    // alias to its strong owner, is `null` (a dangling weak).
+                    return match <Option<serde::de::IgnoredAny> as serde::de::Deserialize>::deserialize(
+                        deserializer,
+                    )? {
+                        None => Ok(RcWeakAnchor(std::rc::Weak::new())),
+                        Some(_) => Err(D::Error::custom(
+                            "weak Rc anchor must refer to an existing strong anchor via alias",
+                        )),
+                    };
+                };
                 // Consume and ignore the inner node to keep the stream in sync (alias replay injects the full target node).
                 let _ =
                     <serde::de::IgnoredAny as serde::de::Deserialize>::deserialize(deserializer)?;
@@ -977,11 +983,18 @@ where
             where
                 D: serde::de::Deserializer<'de>,
             {
-                let id = anchor_store::current_arc_anchor().ok_or_else(|| {
-                    D::Error::custom(
-                        "weak Arc anchor must refer to an existing strong anchor via alias",
-                    )
-                })?;
+                let Some(id) = anchor_store::current_arc_anchor() else {
+                    // Not an alias: the only thing a weak reference is written as, besides an
+                    // alias to its strong owner, is `null` (a dangling weak).
+                    return match <Option<serde::de::IgnoredAny> as serde::de::Deserialize>::deserialize(
+                        deserializer,
+                    )? {
+                        None => Ok(ArcWeakAnchor(std::sync::Weak::new())),
+                        Some(_) => Err(D::Error::custom(
+                            "weak Arc anchor must refer to an existing strong anchor via alias",
+                        )),
+                    };
+                };
                 // Consume and ignore the inner node (alias replay injects the target node events).
                 let _ =
                     <serde::de::IgnoredAny as serde::de::Deserialize>::deserialize(deserializer)?;
@@ -1024,11 +1037,18 @@ where
             where
                 D: serde::de::Deserializer<'de>,
             {
-                let id = anchor_store::current_rc_recursive_anchor().ok_or_else(|| {
-                    D::Error::custom(
-                        "RcRecursion must refer to an existing recursive strong anchor via alias",
-                    )
-                })?;
+                let Some(id) = anchor_store::current_rc_recursive_anchor() else {
+                    // Not an alias: the only thing a weak reference is written as, besides an
+                    // alias to its strong owner, is `null` (a dangling weak).
+                    return match <Option<serde::de::IgnoredAny> as serde::de::Deserialize>::deserialize(
+                        deserializer,
+                    )? {
+                        None => Ok(RcRecursion(std::rc::Weak::new())),
+                        Some(_) => Err(D::Error::custom(
+                            "RcRecursion must refer to an existing recursive strong anchor via alias",
+                        )),
+                    };
+                };
                 let _ =
                     <serde::de::IgnoredAny as serde::de::Deserialize>::deserialize(deserializer)?;
                 match anchor_store::get_rc_recursive::<RefCell<Option<T>>>(id)
@@ -1069,11 +1089,18 @@ where
             where
                 D: serde::de::Deserializer<'de>,
             {
-                let id = anchor_store::current_arc_recursive_anchor().ok_or_else(|| {
-                    D::Error::custom(
-                        "ArcRecursion must refer to an existing recursive strong anchor via alias",
-                    )
-                })?;
+                let Some(id) = anchor_store::current_arc_recursive_anchor() else {
+                    // Not an alias: the only thing a weak reference is written as, besides an
+                    // alias to its strong owner, is `null` (a dangling weak).
+                    return match <Option<serde::de::IgnoredAny> as serde::de::Deserialize>::deserialize(
+                        deserializer,
+                    )? {
+                        None => Ok(ArcRecursion(std::sync::Weak::new())),
+                        Some(_) => Err(D::Error::custom(
+                            "ArcRecursion must refer to an existing recursive strong anchor via alias",
+                        )),
+                    };
+                };
                 let _ =
                     <serde::de::IgnoredAny as serde::de::Deserialize>::deserialize(deserializer)?;
                 match anchor_store::get_arc_recursive::<Mutex<Option<T>>>(id)
